@@ -43,6 +43,8 @@ string script (string key) { return scripts[key]; }
 void enter () { nest++; }
 void leave () { nest--; }
 int depth () { return nest; }
+string pending_connect;
+string take_connect () { string c; c = pending_connect; pending_connect = 0; return c; }
 string *preloads = ({ });
 string *take_preloads () { string *p; p = preloads; preloads = ({ }); return p; }
 object driven;      // the object whose scheduled op the coming backend tick runs
@@ -57,6 +59,7 @@ void act (string oid, string op) {
   actors = ({ });
   if (!o) { VL ("do " + oid + " " + op); VL ("r nobj"); snap (); return; }
   // driver-started contexts: the op is only scheduled here; the harness then lets one backend tick run it
+  if (oid == "m" && op[0..7] == "connect,") { pending_connect = op[8..]; return; }
   if (oid == "m" && op[0..7] == "preload,") { preloads = ({ op[8..] }); return; }
   if (op[0..5] == "later,") { driven = o; driven_set = 1; o->sched_co (op[6..]); return; }
   if (op[0..2] == "hb,") { driven = o; driven_set = 1; o->sched_hb (op[3..]); return; }
